@@ -82,8 +82,13 @@ def check_position(R, b, ctx, effs, t, where, seed_of):
     bbB = calls[0][4] if calls else None
     in_loop = any(e.top_bb in reach_strict(b, e.top_bb) for e in apps)
     after = bbB is not None and all(e.top_bb not in reach_strict(b, bbB) and e.top_bb != bbB for e in apps)
+    before = bbB is not None and all(bbB not in reach_strict(b, e.top_bb) and e.top_bb != bbB for e in apps)
     every_path = bool(apps) and not b.can_return_avoiding({e.top_bb for e in apps})
     seed = seed_of(P)
+    if before and not after:
+        # len read before the single append: index = len_before - seed
+        k += 1
+        after = True
     ok = len(apps) == 1 and not in_loop and after and every_path and k == 1 + seed
     R.check("R-BRACKET", b.label(), ok,
             construct="index = %s.len() - %d with one append per push (seed %d)" % (place_name(P), k, seed),
@@ -123,7 +128,10 @@ def r_bracket(F, R, cat=None, only=None):
                 continue  # forwarded / delegated: the callee is its own instance
             n += 1
             R.saw(b)
-            if t[0] == "agg" and t[1] == "tuple" and len(t[2]) == 2:
+            if t[0] == "agg" and t[1] == "tuple" and len(t[2]) == 2 and t[2][0] == t[2][1] and \
+                    t[2][0][0] == "place":
+                check_cursor_bracket(R, b, ctx=ctx, root=o[0])
+            elif t[0] == "agg" and t[1] == "tuple" and len(t[2]) == 2:
                 check_pair(R, b, ctx, effs, t, where)
             elif idx_ty == "usize":
                 check_position(R, b, ctx, effs, t, where, seed_of)
@@ -170,14 +178,16 @@ def load_site(b, ctx, op, depth=0):
     return None
 
 
-def check_cursor_bracket(R, b):
-    ctx = Ctx(b)
-    # the returned aggregate
-    aggs = [(r, p) for (r, p) in ctx.org.local(0) if r[0] == "agg"]
-    if len(aggs) != 1:
-        R.check("R-BRACKET", b.label(), False, construct="returns one (start, end) pair", where=b.where())
-        return
-    (root, _) = aggs[0]
+def check_cursor_bracket(R, b, ctx=None, root=None):
+    """returned pair = (scalar cursor read before any write to it, the same cursor read after the
+    last write)"""
+    ctx = ctx or Ctx(b)
+    if root is None:
+        aggs = [(r, p) for (r, p) in ctx.org.local(0) if r[0] == "agg"]
+        if len(aggs) != 1:
+            R.check("R-BRACKET", b.label(), False, construct="returns one (start, end) pair", where=b.where())
+            return
+        root = aggs[0][0]
     abb, asi = root[1], root[2]
     rv = ctx.org.stmt(abb, asi)["rv"]
     ops = rv["ops"]
@@ -188,10 +198,8 @@ def check_cursor_bracket(R, b):
                 where=b.where(), detail="%s / %s" % (show(t0), show(t1)))
         return
     cursor = t0
-    s0 = load_site(b, ctx, ops[0])
+    s0 = load_site(b, ctx, ops[0]) or (abb, asi, None)
     s1 = load_site(b, ctx, ops[1]) or (abb, asi, None)
-    if s0 is None:
-        s0 = (abb, asi, None)
     # stores to the cursor
     stores = []
     for bi in sorted(b.live_blocks()):
@@ -199,18 +207,21 @@ def check_cursor_bracket(R, b):
             if st["k"] == "assign" and st["place"]["p"]:
                 if place_tree(ctx, st["place"]) == cursor:
                     stores.append((bi, si, st["line"]))
+
     def precedes(a, c):
         (ba, ia), (bc, ic) = a, c
         if ba == bc:
             return ia < ic and ba not in reach_strict(b, ba)
         return bc in reach_strict(b, ba) and ba not in reach_strict(b, bc)
-    ok0 = all(precedes((s0[0], s0[1]), (bi, si)) for (bi, si, _) in stores)
-    ok1 = all(precedes((bi, si), (s1[0], s1[1])) for (bi, si, _) in stores)
-    R.check("R-BRACKET", b.label(), ok0 and ok1 and bool(stores),
+    # only stores that lie on a path to this aggregate matter (other match arms have their own pair)
+    relevant = [(bi, si, ln) for (bi, si, ln) in stores if abb in reach_strict(b, bi) or bi == abb]
+    ok0 = all(precedes((s0[0], s0[1]), (bi, si)) for (bi, si, _) in relevant)
+    ok1 = all(precedes((bi, si), (s1[0], s1[1])) or (bi, si) == (s1[0], s1[1]) for (bi, si, _) in relevant)
+    R.check("R-BRACKET", b.label(), ok0 and ok1 and bool(relevant),
             construct="index = (bit cursor before any write, bit cursor after the last write)",
             where=b.where(),
             detail="%d stores to the cursor (lines %s); start read first: %s; end read last: %s" % (
-                len(stores), [ln for (_, _, ln) in stores], ok0, ok1))
+                len(relevant), [ln for (_, _, ln) in relevant], ok0, ok1))
 
 
 # ---------------------------------------------------------------------------------------------
@@ -323,17 +334,18 @@ def storage_written(F, cat, adt):
 # fan-out routing (Option / Result / Tuple)
 
 
-def routes(F, ctx, b, t, call_tag):
-    """set of (constructor, child field, component path of the parameter)"""
+def routes(t, call_tag):
+    """set of (constructor path, child field, component path of the parameter) in a semantic
+    alternative of the return value"""
     out = set()
     if t[0] == "agg" and t[1] == "tuple":
         for i, op in enumerate(t[2]):
-            for r in routes(F, ctx, b, op, call_tag):
+            for r in routes(op, call_tag):
                 out.add((("pos", i) + r[0], r[1], r[2]))
         return out
-    if t[0] == "agg" and "::" in t[1]:
+    if t[0] == "agg" and "::" in t[1] and not t[1].startswith("closure:"):
         for op in t[2]:
-            for r in routes(F, ctx, b, op, call_tag):
+            for r in routes(op, call_tag):
                 out.add(((t[1],) + r[0], r[1], r[2]))
         return out
     if t[0] == "call" and t[1] == call_tag and len(t[2]) == 2:
@@ -341,21 +353,6 @@ def routes(F, ctx, b, t, call_tag):
         if recv[0] == "place" and recv[2] == ("arg", 1) and arg[0] == "place" and arg[2] == ("arg", 2):
             out.add(((), tuple(recv[3]), tuple(arg[3])))
         return out
-    if t[0] == "call" and t[1] in (("Option", "map"),) and len(t[2]) == 2:
-        # closure(arg1.inner) applied to the parameter's Some payload
-        src, clo = t[2]
-        base = src
-        while base[0] == "call" and base[1] in (("Option", "as_ref"),):
-            base = base[2][0]
-        if clo[0] == "agg" and clo[1] == "closure" and base[0] == "place" and base[2] == ("arg", 2):
-            cap = clo[2][0] if clo[2] else None
-            if cap is not None and cap[0] == "place" and cap[2] == ("arg", 1):
-                fld = tuple(cap[3])
-                out.add((("Option::Some",), fld, tuple(base[3]) + ("v:Some", "f:0")))
-        return out
-    if t[0] == "phi":
-        for x in t[1]:
-            out |= routes(F, ctx, b, x, call_tag)
     return out
 
 
@@ -363,6 +360,7 @@ FANOUT = ("impls::option::OptionRegion", "impls::result::ResultRegion")
 
 
 def r_fanout(F, R, cat=None):
+    from expr import ret_alts, nobb, NONE
     n = 0
     adts = [a for a in F.adts if a in FANOUT or a.startswith("impls::tuple::Tuple")]
     for adt in sorted(adts):
@@ -372,11 +370,9 @@ def r_fanout(F, R, cat=None):
         ib = idx[0]
         ictx = Ctx(ib)
         iroutes = set()
-        for o in ictx.org.local(0):
-            iroutes |= routes(F, ictx, ib, tree(ictx, o), ("Region", "index"))
-        if adt == "impls::option::OptionRegion":
-            # index: index.map(|t| self.inner.index(t)) — closure captures self
-            iroutes = {(c, ("f:inner",) if f == () else f, p) for (c, f, p) in iroutes}
+        for t in ret_alts(ictx):
+            if t != NONE:
+                iroutes |= routes(nobb(t), ("Region", "index"))
         fields = [f["name"] for f in F.adts[adt]["variants"][0]["fields"]]
         for b in F.methods_of_trait("Push", "push"):
             if b.self_adt != adt:
@@ -385,12 +381,21 @@ def r_fanout(F, R, cat=None):
             R.saw(b)
             ctx = Ctx(b)
             pr = set()
-            for o in ctx.org.local(0):
-                pr |= routes(F, ctx, b, tree(ctx, o), ("Push", "push"))
+            unknown = []
+            for t in ret_alts(ctx):
+                if t == NONE:
+                    continue
+                r = routes(nobb(t), ("Push", "push"))
+                if not r:
+                    unknown.append(show(nobb(t))[:80])
+                pr |= r
+            if not pr or not iroutes:
+                R.undecided_site("R-FANOUT", b.label(), "routing not recognised: %s" % unknown)
+                continue
             # (1) constructor -> child agreement with index()
             m_push = {(c, f) for (c, f, p) in pr}
             m_idx = {(c, f) for (c, f, p) in iroutes}
-            ok1 = bool(pr) and m_push == m_idx
+            ok1 = m_push == m_idx
             # (2) component path i of the item goes to constructor position i / same variant
             ok2 = True
             for (c, f, p) in pr:
